@@ -1,10 +1,12 @@
 import Driver.Util
 import Driver.Quote
+import Driver.Auth
 open Lean
 
 def dispatch (j : Json) : Json :=
   match Driver.getS j "m" with
   | "quote" => Driver.handleQuote j
+  | "authcache" => Driver.handleAuth j
   | "ping" => Driver.obj [("r", Json.str "pong")]
   | _ => Driver.obj [("error", Json.str "bad-model")]
 
